@@ -2,7 +2,7 @@
 import importlib
 import math
 
-from ..engine import Clause
+from ..engine import Clause, chunks
 from ..ref import calendar as cal
 
 from pymeeus.Epoch import Epoch
@@ -327,6 +327,60 @@ def run_range(block, ctx):
     ctx.sample(block[0])
 
 
+# -- one Epoch object moved with set() between queries ---------------------------------------------
+
+RE_DATES = [(1990, 6, 1.5), (-1500, 3, 1.0), (3900, 9, 9.0), (2010, 1, 1.25), (1582, 10, 15.0), (5000, 6, 1.0),
+            (-2500, 2, 2.0)]
+
+
+def _outcome(nm, fn, variant, ep):
+    try:
+        r = getattr(planet(nm), fn)(ep, **kwargs_of(fn, variant))
+    except ValueError:
+        return ("ValueError",)
+    except Exception as ex:
+        return ("exception", repr(ex))
+    if isinstance(r, tuple):
+        return ("ok", r[0].jde(), float(r[1]))
+    return ("ok", r.jde())
+
+
+def check_reused_epoch(case):
+    """ONE Epoch is set to each date of the history in turn and handed to the finder; every answer
+    (instant, or refusal of an out-of-range date) must be the answer for a fresh Epoch of that date."""
+    nm, fn, variant = case["planet"], case["finder"], case["variant"]
+    hist = [tuple(d) for d in case["history"]]
+    out = []
+    ep = Epoch(*hist[0])
+    for k, d in enumerate(hist):
+        if k:
+            ep.set(*d)
+        got = _outcome(nm, fn, variant, ep)
+        exp = _outcome(nm, fn, variant, Epoch(*d))
+        if got != exp:
+            out.append("%s.%s(%s) with one Epoch moved by set() through %r: %r, with a fresh Epoch %r"
+                       % (nm, fn, variant, hist[:k + 1], got, exp))
+            break
+        if ep.jde() != Epoch(*d).jde():
+            out.append("%s.%s(%s) moved the caller's Epoch" % (nm, fn, variant))
+            break
+    return out
+
+
+def run_reused(block, ctx):
+    for case in block:
+        ctx.evals += 2 * len(case["history"])
+        ctx.traces += 1
+        ctx.transitions += len(case["history"])
+        ctx.nt_count += 1
+        res = check_reused_epoch(case)
+        for msg in res:
+            ctx.viol(case, msg, site="reused_epoch")
+        ctx.outcome((case["planet"], case["finder"], len(res)))
+        ctx.obs(case, len(res))
+    ctx.sample(block[0])
+
+
 def clauses(tier):
     V = variants()
     sweeps = []
@@ -358,7 +412,13 @@ def clauses(tier):
         js = [j_lo + per + (i + 0.381966 * ((i * 7) % 11) / 11.0) * stride for i in range(n_spots)]
         for blk_i in range(0, len(js), 60):
             spots.append((vi, js[blk_i:blk_i + 60]))
+    import itertools
+    reused = [{"planet": nm, "finder": fn, "variant": variant, "history": [list(d) for d in h]}
+              for (nm, fn, variant, per) in V
+              for n in ((2, 3) if tier == "thorough" else (2,))
+              for h in itertools.permutations(RE_DATES, n)]
     return [
+        Clause("reused_epoch", chunks(reused, 32), run_reused, check_reused_epoch, floor=1000, shape="H"),
         Clause("spot_events", spots, run_spots, replay_sweep, floor=1000),
         Clause("sweeps", sweeps, run_sweep, replay_sweep, floor=1000),
         Clause("range", [rng], run_range, check_range, floor=20),
